@@ -38,6 +38,7 @@ type edit struct {
 type fault struct {
 	Kind  string `json:"kind"`
 	Index int    `json:"index"`
+	Errno string `json:"errno,omitempty"` // for "error": "" (EIO) | "eperm" | "eacces" | "enoent"
 }
 
 type tMode struct {
@@ -54,6 +55,7 @@ type tCase struct {
 	Mode   tMode  `json:"mode"`
 	Edits  []edit `json:"edits"`
 	Fault  fault  `json:"fault"`
+	Detail bool   `json:"detail"` // record the walker's before-view also in runs with an injected event
 }
 
 func (tc *tCase) in() map[string]any {
@@ -69,7 +71,8 @@ func (tc *tCase) in() map[string]any {
 		"target": encNode(tc.Target),
 		"mode":   map[string]any{"exdev": tc.Mode.Exdev, "owner": tc.Mode.Owner, "missing": paths(miss), "rn2": tc.Mode.Rn2},
 		"edits":  edits,
-		"fault":  map[string]any{"kind": tc.Fault.Kind, "index": tc.Fault.Index},
+		"fault":  map[string]any{"kind": tc.Fault.Kind, "index": tc.Fault.Index, "errno": tc.Fault.Errno},
+		"detail": tc.Detail,
 	}
 }
 
@@ -106,6 +109,7 @@ func caseFromIn(in map[string]any) *tCase {
 	}
 	vlib.Decode(in["edits"], &tc.Edits)
 	vlib.Decode(in["fault"], &tc.Fault)
+	tc.Detail, _ = in["detail"].(bool)
 	return tc
 }
 
@@ -409,7 +413,7 @@ func runCase(scratch string, tc *tCase) map[string]any {
 	}
 	// the detailed before/after views (with lstat identities) are what C08 compares;
 	// runs with an injected event record the plain after-view only
-	detailed := tc.Fault.Kind == "none"
+	detailed := tc.Fault.Kind == "none" || tc.Detail
 	pre := map[string]any{"k": "notrecorded"}
 	if detailed {
 		pre = walk(root)
@@ -440,6 +444,14 @@ func runCase(scratch string, tc *tCase) map[string]any {
 			switch tc.Fault.Kind {
 			case "error":
 				fired, hit = true, opRec{op, name}
+				switch tc.Fault.Errno {
+				case "eperm":
+					return syscall.EPERM
+				case "eacces":
+					return syscall.EACCES
+				case "enoent":
+					return syscall.ENOENT
+				}
 				return syscall.EIO
 			case "cancel":
 				fired, hit = true, opRec{op, name}
@@ -489,6 +501,11 @@ func runCase(scratch string, tc *tCase) map[string]any {
 
 	post := walk(root)
 	if !detailed {
+		stripIDs(post)
+	} else if tc.Fault.Kind != "none" {
+		// before/after views of runs with an injected event serve the executable-bit
+		// comparison only: lstat identities are not needed
+		stripIDs(pre)
 		stripIDs(post)
 	}
 	scan1 := map[string]any{"k": "scanerr"}
@@ -581,6 +598,10 @@ func shapeTrees(shape string) (disk, target []*Node) {
 	case "nest":
 		disk = partialDirs([]string{"a"}, partialDirs([]string{"c", "d"}, cat([]*Node{f1, l1}, partialDirs([]string{"e"}, []*Node{f1, u})...)))
 		target = partialDirs([]string{"a"}, []*Node{f2, nDir(map[string]*Node{})})
+	case "exec":
+		f2x := nFile("d2", true)
+		disk = partialDirs([]string{"a"}, cat([]*Node{f1x, f1}, partialDirs([]string{"c"}, []*Node{f1x, f1})...))
+		target = partialDirs([]string{"a"}, cat([]*Node{f2x, f2, f1x, f1}, partialDirs([]string{"c"}, []*Node{f2x, f2})...))
 	case "edit":
 		disk = partialDirs([]string{"a"}, cat([]*Node{f1, l1}, partialDirs([]string{"c"}, []*Node{f1, l1})...))
 		target = cat(partialDirs([]string{"a"}, cat([]*Node{f2, f1x, l2}, partialDirs([]string{"c"}, []*Node{f2, l2})...)), nil)
@@ -742,6 +763,20 @@ func faultSweep(scratch string, jb *job, emit func(rec map[string]any, nontrivia
 		}
 		r := runCase(scratch, withFault(tc, "error", k))
 		emit(r, r["fired"].(bool), false, k == 1+jb.Off%n)
+		// other error numbers at the primitives listed for them (a not-exist error is
+		// what the code treats as "staged file missing")
+		if k <= len(opNames) {
+			for _, eo := range jb.ErrnoOps {
+				if eo == opNames[k-1] {
+					for _, en := range []string{"eperm", "eacces", "enoent"} {
+						cp := withFault(tc, "error", k)
+						cp.Fault.Errno = en
+						r = runCase(scratch, cp)
+						emit(r, r["fired"].(bool), false, false)
+					}
+				}
+			}
+		}
 		if jb.CancelStride > 0 && (k+jb.Off)%jb.CancelStride == 0 {
 			r = runCase(scratch, withFault(tc, "cancel", k))
 			emit(r, r["fired"].(bool), false, false)
@@ -750,6 +785,9 @@ func faultSweep(scratch string, jb *job, emit func(rec map[string]any, nontrivia
 			r = runCase(scratch, withFault(tc, "vanish", k))
 			emit(r, r["fired"].(bool), false, false)
 		}
+	}
+	if jb.NoExtras {
+		return
 	}
 	// content inside a directory that the plan removes disappears between scan
 	// and transition (no injected event): results must still be exact
@@ -1286,5 +1324,99 @@ func runUnknown(c *vlib.Ctx) error {
 	runJobs(c, jobs)
 	c.SetExhaustive(true)
 	c.SetExtra("bound", fmt.Sprintf("shapes %v: every pair whose disk tree holds a FIFO, and every pair x every newcomer (new child; file / link / directory / FIFO at a path the plan creates), each with same-device staging, cross-device staging (real /dev/shm when available) and renameat2 unavailable; %d random trees", shapes, nRandom))
+	return nil
+}
+
+// ------------------------------------------------------------------ C18 (extra run)
+
+func withPerm(n *Node, perm int) *Node {
+	if n == nil {
+		return nil
+	}
+	cp := *n
+	if n.K == "file" && n.X {
+		cp.M = perm
+	}
+	if n.C != nil {
+		cp.C = map[string]*Node{}
+		for k, ch := range n.C {
+			cp.C[k] = withPerm(ch, perm)
+		}
+	}
+	return &cp
+}
+
+func hasExec(n *Node) bool {
+	if n == nil {
+		return false
+	}
+	if n.K == "file" && n.X {
+		return true
+	}
+	for _, ch := range n.C {
+		if hasExec(ch) {
+			return true
+		}
+	}
+	return false
+}
+
+// runExec is the scenario run for C18 on the endpoint that preserves executable
+// bits: executable files (0755, u+x only, u+x with g+x, u+x with o+x) at one and
+// two levels; plans that change content and/or executability (shape "exec" of
+// FSTransition.tla); staged files created 0600 as the stager does; same-device
+// and cross-device staging, with and without a default owner; one injected error
+// at every primitive (EIO everywhere, EPERM / EACCES / ENOENT in addition at the
+// permission, ownership, open and rename primitives). The walker's before-view is
+// recorded in every run.
+func runExec(c *vlib.Ctx) error {
+	perms := []int{0o755, 0o744, 0o754, 0o745}
+	errnoOps := []string{"setpermissions", "fchmod", "fchownat", "renameat", "renameat2"}
+	modes := []tMode{{}, {Exdev: true, Owner: true}, {Owner: true}, {Exdev: true}}
+	every := argInt(c, "every", 1)
+	nRandom := argInt(c, "rand", 6)
+	if c.Thorough() {
+		nRandom = argInt(c, "rand", 150)
+	}
+	var jobs []*job
+	n := 0
+	add := func(tc *tCase, perm int, ms []tMode) {
+		for _, m := range ms {
+			cp := *tc
+			cp.Tree0 = withPerm(tc.Tree0, perm)
+			cp.Mode = m
+			cp.Detail = true
+			jobs = append(jobs, &job{Kind: "sweep", In: cp.in(), Off: c.Rand.Intn(1 << 20), ErrnoOps: errnoOps, NoExtras: true})
+		}
+	}
+	for i, tc := range baseCases("exec") {
+		if !hasExec(tc.Tree0) && !hasExec(tc.Target) {
+			continue
+		}
+		n++
+		if (n+c.Rand.Intn(every))%every != 0 {
+			continue
+		}
+		if c.Thorough() {
+			for _, p := range perms {
+				add(tc, p, modes)
+			}
+			continue
+		}
+		// quick: 0755 and one rotating variant; same-device and cross-device+owner
+		// always, the two remaining configurations alternating
+		add(tc, 0o755, []tMode{modes[0], modes[1]})
+		add(tc, perms[1+i%3], []tMode{modes[2+i%2]})
+	}
+	for i := 0; i < nRandom; i++ {
+		tc := randomCase(c)
+		if !hasExec(tc.Tree0) {
+			continue
+		}
+		add(tc, perms[i%4], []tMode{modes[i%4]})
+	}
+	runJobs(c, jobs)
+	c.SetExhaustive(true)
+	c.SetExtra("bound", fmt.Sprintf("shape exec: every (disk tree, target tree) pair holding or planning an executable file; permissions %o (quick: 0755 + one rotating); staging same-device / cross-device (real /dev/shm when available) x default owner; an error at every primitive index (EIO; EPERM, EACCES, ENOENT at %v); %d random trees", perms, errnoOps, nRandom))
 	return nil
 }
